@@ -71,6 +71,7 @@ class JobResult:
             "steps": 0,
             "boundaries": 0,
             "status": {},
+            "log_digest": "",
         }
 
     def stat(self, k, n=1):
@@ -97,6 +98,9 @@ class JobResult:
             return
         if not isinstance(res, dict):
             return
+        # event-log digest of the run: everything the simulated process streamed, in order
+        h = hashlib.sha1((self.d["log_digest"] + repr((res["status"], res["records"], sorted((k, v["h"], v["mode"]) for k, v in res["after"].items())))).encode("utf-8", "replace"))
+        self.d["log_digest"] = h.hexdigest()[:20]
         st = res["status"].split(":")[0]
         self.d["status"][st] = self.d["status"].get(st, 0) + 1
         if nontrivial:
